@@ -279,6 +279,14 @@ func (ex *Exec) osModel(full string, c *ast.CallExpr, args []Term) ([]Term, bool
 		ex.st.ghost["fsContent"] = ex.def("fsContent", Ite(success, nc, ex.U.Fresh("partial", SString)))
 		ex.st.ghost["fOffset"] = ex.def("fOffset", Ite(success, Term{end, SInt}, ex.U.Fresh("off", SInt)))
 		return rs, true
+	case "os.File.Truncate":
+		rs := sigRes()
+		success := Eq(rs[0], Term{"nilAny", SAny})
+		n := args[1]
+		cont := g["fsContent"]
+		fits := And(Term{"(<= 0 " + n.S + ")", SBool}, Term{"(<= " + n.S + " (str.len " + cont.S + "))", SBool})
+		ex.st.ghost["fsContent"] = ex.def("fsContent", Ite(And(success, fits), Term{"(str.substr " + cont.S + " 0 " + n.S + ")", SString}, Ite(success, ex.U.Fresh("padded", SString), cont)))
+		return rs, true
 	case "os.File.Sync", "os.File.Close":
 		return sigRes(), true
 	case "os.WriteFile", "io/ioutil.WriteFile":
